@@ -234,25 +234,25 @@ Definition true_size (sizeof : sizefn) (k : kind) (n c : Z) : Z :=
 
 (* the sample whose size stands for "one empty value" in the estimate:
    strings.py uses '' ; collections.py (after the repair) uses `left * 0` *)
-Definition estimate_args (sizeof : sizefn) (k : kind) (S c : Z) : list (Z * Z) :=
-  [(- c + 1, sizeof (empty_kind k) 0); (c, S)].
-Definition estimate (sizeof : sizefn) (Q : Z) (k : kind) (S c : Z) : bool :=
-  limit_memory_usage Q (estimate_args sizeof k S c).
+Definition estimate_args (sizeof : sizefn) (k : kind) (sz c : Z) : list (Z * Z) :=
+  [(- c + 1, sizeof (empty_kind k) 0); (c, sz)].
+Definition estimate (sizeof : sizefn) (Q : Z) (k : kind) (sz c : Z) : bool :=
+  limit_memory_usage Q (estimate_args sizeof k sz c).
 
 (* collections.py before the repair: `[]` is the sample whatever the operand is *)
-Definition estimate_args_historic (sizeof : sizefn) (k : kind) (S c : Z) : list (Z * Z) :=
-  [(- c + 1, sizeof (if is_seq k then KList else KAscii) 0); (c, S)].
-Definition estimate_historic (sizeof : sizefn) (Q : Z) (k : kind) (S c : Z) : bool :=
-  limit_memory_usage Q (estimate_args_historic sizeof k S c).
+Definition estimate_args_historic (sizeof : sizefn) (k : kind) (sz c : Z) : list (Z * Z) :=
+  [(- c + 1, sizeof (if is_seq k then KList else KAscii) 0); (c, sz)].
+Definition estimate_historic (sizeof : sizefn) (Q : Z) (k : kind) (sz c : Z) : bool :=
+  limit_memory_usage Q (estimate_args_historic sizeof k sz c).
 
 (* evaluation of `x * c` under quota Q: argument checks (SmartType.convert), the
    estimate (payload), the allocation, the result check (runner.call) *)
 Inductive mul_out := QuotaArg | QuotaEstimate | QuotaResult (size : Z) | MulOk (size : Z).
 
 Definition mul_eval (est : Z -> kind -> Z -> Z -> bool) (sizeof : sizefn)
-           (Q : Z) (k : kind) (n S c csize : Z) : mul_out :=
-  if limit_memory_usage Q [(1, S)] || limit_memory_usage Q [(1, csize)] then QuotaArg
-  else if est Q k S c then QuotaEstimate
+           (Q : Z) (k : kind) (n sz c csize : Z) : mul_out :=
+  if limit_memory_usage Q [(1, sz)] || limit_memory_usage Q [(1, csize)] then QuotaArg
+  else if est Q k sz c then QuotaEstimate
   else let r := true_size sizeof k n c in
        if limit_memory_usage Q [(1, r)] then QuotaResult r else MulOk r.
 
@@ -286,20 +286,37 @@ Definition object_typed (p : prow) : bool :=
 (* ------------------------------------------------------------------------- *)
 (* correspondence cases                                                      *)
 (* ------------------------------------------------------------------------- *)
+(* sets hold scalars only (hashable plain data); compared up to order *)
+Fixpoint insert_z (x : Z) (l : list Z) : list Z :=
+  match l with [] => [x] | y :: r => if Z.leb x y then x :: l else y :: insert_z x r end.
+Definition set_keys (l : list val) : option (list Z) :=
+  fold_right (fun v acc => match v, acc with VInt z, Some r => Some (insert_z z r) | _, _ => None end) (Some []) l.
+
 Fixpoint val_eqb (a b : val) {struct a} : bool :=
+  let fix go (x y : list val) {struct x} : bool :=
+    match x, y with
+    | [], [] => true
+    | u :: x', w :: y' => val_eqb u w && go x' y'
+    | _, _ => false
+    end in
   match a, b with
   | VNull, VNull => true
   | VInt x, VInt y => Z.eqb x y
   | VStr x, VStr y => str_eqb x y
-  | VTuple x, VTuple y | VList x, VList y | VSet x, VSet y => list_eqb val_eqb x y
+  | VTuple x, VTuple y | VList x, VList y => go x y
+  | VSet x, VSet y =>
+    match set_keys x, set_keys y with
+    | Some kx, Some ky => list_eqb Z.eqb kx ky
+    | _, _ => go x y
+    end
   | VDict x, VDict y =>
-    (fix go (x y : list (val * val)) : bool :=
+    (fix gd (x y : list (val * val)) {struct x} : bool :=
        match x, y with
        | [], [] => true
-       | (k1, v1) :: x', (k2, v2) :: y' => val_eqb k1 k2 && val_eqb v1 v2 && go x' y'
+       | (k1, v1) :: x', (k2, v2) :: y' => val_eqb k1 k2 && val_eqb v1 v2 && gd x' y'
        | _, _ => false
        end) x y
-  | VIter x e, VIter y f => list_eqb val_eqb x y && Bool.eqb e f
+  | VIter x e, VIter y f => go x y && Bool.eqb e f
   | _, _ => false
   end.
 
@@ -336,7 +353,7 @@ Inductive case :=
 (* limit_memory_usage *)
 | CQuota (Q : Z) (xs : list (Z * Z)) (raised : bool)
 (* `x * c`: observed (raised, product computed, size of the product) *)
-| CMul (Q : Z) (k : kind) (n S c csize : Z) (obs : bool * bool * Z)
+| CMul (Q : Z) (k : kind) (n sz c csize : Z) (obs : bool * bool * Z)
 (* a growth step through the engine *)
 | CCall (Q : Z) (args : list Z) (joint : bool) (result : Z) (raised : bool).
 
@@ -353,7 +370,7 @@ Definition case_ok_with (sizeof : sizefn) (c : case) : bool :=
   | CFinal N o v r p =>
     let '(mr, mp) := fin N o v in res_eqb val_eqb mr r && Nat.eqb mp p
   | CQuota Q xs raised => Bool.eqb (limit_memory_usage Q xs) raised
-  | CMul Q k n S c cs obs =>
-    obs3_eqb (mul_obs (mul_eval (estimate sizeof) sizeof Q k n S c cs)) obs
+  | CMul Q k n sz c cs obs =>
+    obs3_eqb (mul_obs (mul_eval (estimate sizeof) sizeof Q k n sz c cs)) obs
   | CCall Q args joint result raised => Bool.eqb (call_eval Q args joint result) raised
   end.
